@@ -398,6 +398,47 @@ WITNESSES = [
     ('stylesheet', 'options', 'output.newline', '\n', '\r\n', 'm10+p5', {}),
     ('stylesheet', 'options', 'output.baseIndent', '', '  ', 'm10+p5', {}),
     ('stylesheet', 'snippets', 'm', 'margin', 'margin-x', 'm10', {}),
+    # one witness per place where a key is consumed (several places read the same option)
+    ('markup', 'options', 'inlineElements', ['foo'], [], 'foo>.bar', {}),
+    ('markup', 'options', 'inlineElements', ['div'], [], 'p{<div>x</div>}', {}),
+    ('markup', 'options', 'jsx.enabled', False, True, '..foo', {'options': {'markup.attributes': {'class*': 'styleName'}, 'markup.valuePrefix': {'class*': 'styles'}}}),
+    ('markup', 'options', 'jsx.enabled', False, True, 'div.{a.b}', {}),
+    ('markup', 'options', 'output.selfClosingStyle', 'html', 'xhtml', 'input[disabled.]', {'options': {'output.compactBoolean': True}}),
+    ('markup', 'options', 'output.selfClosingStyle', 'html', 'xml', 'br', {'syntax': 'pug'}),
+    ('markup', 'options', 'output.reverseAttributes', False, True, 'a[href=x title=y href=z]', {}),
+    ('markup', 'options', 'markup.valuePrefix', {'class*': 's1'}, {'class*': 's2'}, '..foo', {'options': {'markup.attributes': {'class*': 'styleName'}}}),
+    ('markup', 'options', 'output.booleanAttributes', ['disabled'], ['foo'], 'div[foo]', {'syntax': 'pug'}),
+    ('markup', 'options', 'output.compactBoolean', False, True, 'input[disabled.]', {'syntax': 'haml'}),
+    ('markup', 'options', 'output.attributeQuotes', 'double', 'single', 'div[title=a]', {'syntax': 'slim'}),
+    ('markup', 'options', 'output.attributeCase', '', 'upper', 'div[title=a]', {'syntax': 'pug'}),
+    ('markup', 'options', 'output.tagCase', '', 'upper', 'div>p', {'options': {'comment.enabled': True}}),
+    ('markup', 'options', 'output.indent', '\t', '  ', 'div>p', {'syntax': 'pug'}),
+    ('markup', 'options', 'output.newline', '\n', '\r\n', 'p{a\nb}', {}),
+    ('markup', 'options', 'output.baseIndent', '', '  ', 'p{a\nb}', {'syntax': 'haml'}),
+    ('markup', 'options', 'output.formatSkip', ['html'], ['div'], 'div>p', {}),
+    ('markup', 'options', 'output.formatForce', ['body'], ['p'], 'div>p', {}),
+    ('markup', 'options', 'output.inlineBreak', 3, 2, 'p>a+b', {}),
+    ('markup', 'options', 'bem.element', '__', '-', '.b>.-e>.--f', {'options': {'bem.enabled': True}}),
+    ('markup', 'options', 'bem.modifier', '_', '--', '.b>.-e_m', {'options': {'bem.enabled': True}}),
+    ('markup', 'variables', 'lang', 'en', 'de', '!', {}),
+    ('markup', 'variables', 'lang', 'en', 'de', 'doc', {'syntax': 'pug'}),
+    ('markup', 'snippets', 'link', 'link[rel=stylesheet href]/', 'link.x/', 'link:css', {}),
+    ('markup', 'snippets', 'zz', 'div.z1', 'div.z2', 'zq', {'snippets': {'zq': 'zz>p'}}),
+    ('stylesheet', 'options', 'stylesheet.shortHex', True, False, 'cola', {'snippets': {'cola': 'color:#ff0000|#00ff00'}}),
+    ('stylesheet', 'options', 'stylesheet.shortHex', True, False, 'c#ffffff', {}),
+    ('stylesheet', 'options', 'stylesheet.skipUnmatched', True, False, 'dzz', {}),
+    ('stylesheet', 'options', 'stylesheet.skipUnmatched', True, False, 'm10+xyz+p5', {}),
+    ('stylesheet', 'options', 'stylesheet.json', False, True, 'mt', {}),
+    ('stylesheet', 'options', 'stylesheet.json', False, True, 'd:b', {}),
+    ('stylesheet', 'options', 'stylesheet.keywords', ['auto'], [], 'a', {'context': {'name': 'margin'}}),
+    ('stylesheet', 'options', 'stylesheet.unitless', ['zoom'], [], 'zom2', {}),
+    ('stylesheet', 'options', 'stylesheet.unitAliases', {'e': 'em'}, {'e': 'ex'}, 'm1e+p2e', {}),
+    ('stylesheet', 'options', 'stylesheet.intUnit', 'px', 'pt', '10', {'context': {'name': 'margin'}}),
+    ('stylesheet', 'options', 'stylesheet.floatUnit', 'em', 'rem', '1.5', {'context': {'name': 'margin'}}),
+    ('stylesheet', 'options', 'stylesheet.fuzzySearchMinScore', 0, 1, 'a', {'context': {'name': 'margin'}}),
+    ('stylesheet', 'options', 'stylesheet.between', ': ', ':', 'm10', {'syntax': 'scss'}),
+    ('stylesheet', 'options', 'stylesheet.after', ';', '!', 'm10!', {}),
+    ('stylesheet', 'snippets', 'bd', 'border:${1:1px} ${2:solid} ${3:#000}', 'border-x:1', 'bd', {}),
 ]
 FIXED_SIZE = GRID_SIZE + len(WITNESSES)
 
@@ -409,7 +450,7 @@ def gen_c20_witness(wi):
     spec.update({'id': 'c0', 'holder': 'dict', 'global': 'g0'})
     if t == 'stylesheet':
         spec['type'] = t
-    syn = 'css' if t == 'stylesheet' else 'html'
+    syn = spec.get('syntax', 'css' if t == 'stylesheet' else 'html')
     world = {'configs': {'c0': spec, 'c1': dict(json.loads(json.dumps(spec)), id='c1', holder='Config')}, 'caches': [], 'globals': {'g0': {}}}
     ops = []
     pair = 0
